@@ -45,8 +45,8 @@ WIDTH = {"u8": 1, "u16": 2, "u32": 4, "u64": 8, "i16": 2, "i32": 4}
 
 def correspond(run):
     # memory behaviour first: in a child process, so that an abort is observed, not suffered
-    cmd = [vlib.HARNESS_BIN, "sig-stress", "--n", "1500" if run.tier == "quick" else "20000"]
-    if run.tier == "thorough":
+    cmd = [vlib.HARNESS_BIN, "sig-stress", "--n", "1500" if run.depth == "quick" else "20000"]
+    if run.depth == "thorough":
         cmd = ["valgrind", "--error-exitcode=97", "-q"] + [vlib.HARNESS_BIN, "sig-stress", "--n", "300"]
     try:
         p = subprocess.run(cmd, stdout=subprocess.PIPE, stderr=subprocess.PIPE, timeout=1500, universal_newlines=True, errors="replace")
@@ -59,7 +59,7 @@ def correspond(run):
                       {"kind": "impl-input", "input": {"command": " ".join(cmd)}, "observed": {"status": rc, "stderr": err[-400:]},
                        "expected": "exit 0"})
         return
-    rc, js, out, err = vlib.harness(["sig-cases", "--seed", run.seed, "--n", 120 if run.tier == "quick" else 1200], timeout=900)
+    rc, js, out, err = vlib.harness(["sig-cases", "--seed", run.seed, "--n", 120 if run.depth == "quick" else 1200], timeout=900)
     if rc != 0 or js is None:
         run.violation("sig-memory", "get_sig: the case generator itself died (status %d): %s" % (rc, err[-200:]),
                       {"kind": "impl-input", "input": {"command": "sig-cases"}, "observed": {"status": rc}})
@@ -104,7 +104,7 @@ def correspond(run):
     # the bytes are what the Sha variant hashes: its signatures must be those of the model run on scripts drawn from
     # generators seeded with Sha512_256(get_sig(key)) - for every key, whatever was hashed before it
     from props import pmhlib
-    pc, codes = pmhlib.correspond_pmh(run, 700 if run.tier == "quick" else 7000)
+    pc, codes = pmhlib.correspond_pmh(run, 700 if run.depth == "quick" else 7000)
     if pc is not None:
         sha = [(c, cd) for c, cd in zip(pc, codes) if c["variant"] == "3asha"]
         badsha = [(c, cd) for c, cd in sha if cd != 0]
